@@ -243,7 +243,9 @@ def run_fgg(ctx):
     """FGG round trip: domains, factors (dense and patterned, inf), sum_product"""
     n = 120 if ctx.quick else 1000
     for k in range(n):
-        shape = gen.random_shape(ctx.rng, recursive=False, n_nts=(1, 3), rules_per_nt=(1, 2), start_arity=(0, 1), dom_sizes=(1, 2, 3, 4, 2),
+        # (every tenth grammar may have an EMPTY domain: factors over it have no entries, but they do have a shape)
+        shape = gen.random_shape(ctx.rng, recursive=False, n_nts=(1, 3), rules_per_nt=(1, 2), start_arity=(0, 1),
+                                 dom_sizes=(1, 2, 3, 4, 2, 0) if k % 10 == 7 else (1, 2, 3, 4, 2),
                                  weights=lambda r: r.choice([0.0, 1.0, 2.0, 3.0, math.inf, 0.5]))
         fgg, info = gen.build_fgg(shape, ids=ctx.rng.choice(['implicit', 'explicit']),
                                   domain_kind=ctx.rng.choice(['finite', 'range']), dtype=torch.get_default_dtype())
@@ -277,7 +279,12 @@ def run_fgg(ctx):
         except (TypeError, ValueError) as e:
             ctx.fail('fgg_to_json produced an object json.dumps rejects', dict(shape=shape), repr(e), None, tags=['dumps'])
             continue
-        f2 = formats.json_to_fgg(json.loads(s))
+        try:
+            f2 = formats.json_to_fgg(json.loads(s))
+        except Exception as e:  # noqa
+            ctx.fail(f'json_to_fgg rejects what fgg_to_json wrote: {type(e).__name__}: {str(e)[:100]}', dict(json=json.loads(s)), repr(e), None,
+                     tags=['fgg-roundtrip', 'rejected', type(e).__name__])
+            continue
         bad = []
         if set(f2.domains) != set(fgg.domains) or any(f2.domains[d] != fgg.domains[d] for d in fgg.domains):
             bad.append('domains differ')
